@@ -448,7 +448,7 @@ def plan(ctx):
     seed = ctx.seed
     jobs = []
     if ctx.tier == "quick":
-        nch, parts, ndata = 96, 12, 2
+        nch, parts, ndata = 96, 8, 2
         qs = [[1, 4, 16]] * 4
         dq = [{4}] * 4
         step = nch // parts
@@ -507,7 +507,8 @@ def run(ctx):
         cfg, defs = build(**kw)
         return label, tlc_run(cfg, defs, workers=1)
 
-    with ThreadPoolExecutor(min(15, len(jobs) + 1)) as ex:
+    nthreads = int(os.environ.get("VERIF_PROCS", "0") or 0) or 15      # TLC processes run side by side
+    with ThreadPoolExecutor(max(1, min(nthreads, len(jobs) + 1))) as ex:
         mf = ex.submit(model_stage, ctx)
         futs = [ex.submit(one, j) for j in jobs]
         runs = [f.result() for f in futs]
